@@ -1179,6 +1179,11 @@ class Interp:
         return self.binop(_BINOPS[type(node.op)], a, b)
 
     def binop(self, op, a, b):
+        from .lib_torch import NestedTensor as _NT
+
+        if isinstance(a, _NT) and not isinstance(b, (_NT, list, tuple)):
+            # arithmetic of a nested tensor with a scalar / 0-d tensor applies per component
+            return _NT([self.binop(op, x, b) for x in a])
         if isinstance(a, STensor) or isinstance(b, STensor):
             if op == "matmul":
                 raise Unsupported("matmul")
